@@ -6,6 +6,9 @@ module Greeks (incl. the autogreek-based lookback ones) vs finite differences.
 predicate (real code only): closed-form / module Greek vs Richardson-extrapolated central finite
 differences of the real price; autogreek.{delta,gamma,vega,theta} on generated smooth pricers under
 every accepted parameterisation vs finite differences of the same pricer.
+Sessions (predicate only): several Greeks evaluated one after the other on the SAME caller tensors (two pricers on one grid, call
+then put, a repeated call), float64 data, each result compared - dtype and value to double precision - with the derivative obtained
+by the harness's own reverse-mode differentiation of the same price on fresh leaves.
 """
 import math
 from common import *  # noqa
@@ -75,6 +78,54 @@ def make_pricer(g, torch, spotpar, volpar):
             return a * x * 0.5 * (1 + math.erf(z / math.sqrt(2))) + c * vol
         return a * x * 0.5 * (1 + torch.erf(z / math.sqrt(2))) + c * vol
     return core, form
+
+
+def harness_greeks(torch, price_of, S, t, v):
+    """the four derivatives of the element-wise pricer price_of(spot, time_to_maturity, volatility), by the harness's own reverse-mode
+    differentiation on fresh leaves holding the values of S, t, v (nothing of pfhedge.autogreek / pfhedge._utils.parse is involved);
+    exact to the rounding of the arithmetic of the dtype of S, t, v"""
+    S_, t_, v_ = (x.detach().clone().requires_grad_() for x in (S, t, v))
+    with torch.enable_grad():
+        p = price_of(S_, t_, v_)
+        (d,) = torch.autograd.grad(p.sum(), S_, create_graph=True)
+        ga = torch.autograd.grad(d.sum(), S_, retain_graph=True, allow_unused=True)[0] if d.requires_grad else None
+        ve, th = torch.autograd.grad(p.sum(), (v_, t_), allow_unused=True)
+    Z = lambda x: torch.zeros_like(S_) if x is None else x.detach()
+    return {"delta": Z(d), "gamma": Z(ga), "vega": Z(ve), "theta": -Z(th)}
+
+
+def named_pricer(torch, core, spotpar, volpar, with_strike):
+    """pricer with exactly the chosen parameter names around core(x, vol, t); with a `strike` parameter the spot-like quantity is
+    turned back into the spot (x = spot), without it x = spot, moneyness or exp(log_moneyness)"""
+    if spotpar == "spot":
+        xs = "spot"
+    elif spotpar == "moneyness":
+        xs = "moneyness * strike" if with_strike else "moneyness"
+    else:
+        xs = "torch.exp(log_moneyness) * strike" if with_strike else "torch.exp(log_moneyness)"
+    vs = "volatility" if volpar == "volatility" else "torch.sqrt(variance)"
+    names = [spotpar] + (["strike"] if with_strike else []) + [volpar, "time_to_maturity"]
+    ns = {"core": core, "torch": torch}
+    exec(f"def pricer({', '.join(names)}):\n    return core({xs}, {vs}, time_to_maturity, torch)\n", ns)
+    return ns["pricer"]
+
+
+def session_greeks(g):
+    """3-5 Greeks; the first one comes back later in the sequence, so at least one Greek is evaluated twice on the same tensors"""
+    first = g.choice(["delta", "gamma", "vega", "theta"])
+    seq = [first] + [g.choice(["delta", "gamma", "vega", "theta"]) for _ in range(g.randint(1, 3))] + [first]
+    if g.chance(0.4):
+        seq.append(g.choice(["vega", "theta"]))
+    return seq
+
+
+DYADIC_STRIKES = [1.0, 0.5, 2.0, 1.25, 0.75, 7.5, 0.625, 3.0]      # exactly representable in float32 as well
+
+
+def as_caller_tensor(torch, xs, graph):
+    """float64 tensor of the caller: a plain leaf, or (graph) the result of a computation that is itself tracked by autograd"""
+    x = torch.tensor(xs, dtype=torch.float64)
+    return x.clone().requires_grad_() * 1.0 if graph else x
 
 
 def check(ctx):
@@ -276,7 +327,199 @@ def check(ctx):
         if abs(got - fd) > 1e-5 * max(1.0, abs(fd)):
             ctx.fail(f"autogreek.{greek} is not the derivative of the user pricer with respect to the spot / volatility / (minus) time",
                      case, key=f"autogreek.{greek}:{spotpar}:{volpar}", detail={"autogreek": got, "finite_difference": fd})
+    # ---------------- sessions: several automatic Greeks on the same caller tensors, float64, judged to double precision
+    import pfhedge.nn.functional as fnl
+
+    def judge(site, greek, i, got, ref, floor, case, strike_class):
+        """dtype and value of one evaluation of a session; ref = harness_greeks(...)[greek]"""
+        if got.dtype != torch.float64:
+            ctx.fail(f"{site}.{greek} of float64 inputs is not float64", case, key=f"{site}.{greek}:dtype", detail=str(got.dtype))
+        got = got.detach().to(torch.float64).reshape(-1)
+        for j in range(got.numel()):
+            a, b = float(got[j]), float(ref[j])
+            # both sides are reverse-mode derivatives in double precision of the same smooth price on a tame box (conditioning <= 1e4)
+            if not abs(a - b) <= 1e-10 * max(abs(b), floor):
+                use = "fresh" if i == 0 else "reused"
+                if strike_class == "python-float":
+                    key = "float64-greek:python-float-strike"
+                else:
+                    key = f"{site}.{greek}:{use}-tensors"
+                what = f"{site}.{greek} is not the derivative of the price to double precision" \
+                    + (" when the caller's tensors were used for earlier Greeks" if i else "")
+                if strike_class == "python-float":
+                    what = "an automatic Greek of float64 tensors with a Python float strike (not a float32 value) is not the derivative of the price to double precision"
+                ctx.fail(what, case, key=key,
+                         detail={"evaluation": i, "element": j, "greek": a, "derivative_of_price": b, "rel": abs(a - b) / max(abs(b), floor)})
+                return
+
+    for _ in range(120 if ctx.tier == "quick" else 1200):
+        # -- user pricers
+        spotpar = g.choice(["spot", "moneyness", "log_moneyness"])
+        volpar = g.choice(["volatility", "variance"])
+        with_strike = spotpar != "spot" and g.chance(0.5)
+        cores = [make_pricer(g, torch, spotpar, volpar) for _ in range(2)]
+        pricers = [named_pricer(torch, c_, spotpar, volpar, with_strike) for c_, _ in cores]
+        n_ = g.small((1, 2, 3, 4))
+        graph = g.chance(0.25)
+        Kf = g.choice(DYADIC_STRIKES[:5]) if g.chance(0.5) else g.r.uniform(0.4, 2.5)
+        strike_form = "float" if Kf in DYADIC_STRIKES else "float64-tensor"
+        K = Kf if strike_form == "float" else torch.tensor(Kf, dtype=torch.float64)
+        S0 = [g.r.uniform(0.5, 2.0) for _ in range(n_)]
+        vol0 = [g.r.uniform(0.1, 0.8) for _ in range(n_)]
+        t0 = [g.r.uniform(0.2, 2.0) for _ in range(n_)]
+        X = as_caller_tensor(torch, S0 if spotpar == "spot" else [s_ / Kf for s_ in S0] if spotpar == "moneyness" else [math.log(s_ / Kf) for s_ in S0], graph)
+        VP = as_caller_tensor(torch, vol0 if volpar == "volatility" else [v_ * v_ for v_ in vol0], graph)
+        TM = as_caller_tensor(torch, t0, graph)
+        # the point in (spot, time, volatility) the caller's tensors stand for
+        Sx = (X if spotpar == "spot" else X * Kf if spotpar == "moneyness" else X.exp() * Kf).detach()
+        Vx = (VP if volpar == "volatility" else VP.sqrt()).detach()
+        x_of = (lambda S: S) if (spotpar == "spot" or with_strike) else (lambda S: S / Kf)
+        refs = [harness_greeks(torch, lambda S, t, v, c_=c_: c_(x_of(S), v, t, torch), Sx, TM, Vx) for c_, _ in cores]
+        seq = session_greeks(g)
+        which = [g.randint(0, 1) for _ in seq]
+        for i, (greek, w_) in enumerate(zip(seq, which)):
+            params = {spotpar: X, volpar: VP, "time_to_maturity": TM}
+            if spotpar != "spot":
+                params["strike"] = K
+            st, val, _ = call_impl(getattr(ag, greek), pricers[w_], **params)
+            case = {"session": "autogreek", "spot_param": spotpar, "vol_param": volpar, "pricer_has_strike": with_strike,
+                    "forms": [f for _, f in cores], "S": S0, "vol": vol0, "t": t0, "K": Kf, "strike_given_as": strike_form,
+                    "inputs_tracked_by_autograd": graph, "sequence": [f"{a}(pricer{b})" for a, b in zip(seq[:i + 1], which)]}
+            ctx.case(case, True, tag="session_autogreek")
+            ctx.stats[f"session_autogreek={greek}/{'first' if i == 0 else 'later'}"] += 1
+            ctx.traces += 1
+            if st != "ok":
+                ctx.fail("autogreek raised on a smooth pricer (session on shared tensors)", case, key=f"autogreek.{greek}:session:error", detail=val)
+                continue
+            judge(f"autogreek[{spotpar}/{volpar}]", greek, i, val, refs[w_][greek], 1.0, case, strike_form)
+    for _ in range(120 if ctx.tier == "quick" else 1200):
+        # -- the modules' own prices: module Greeks that go through autogreek, autogreek on module.price, functional lookback Greeks
+        fam = g.choice(["lookback", "lookback", "american_binary", "european", "european_binary"])
+        pd = fam in ("lookback", "american_binary")
+        n_ = g.small((1, 2, 3, 4))
+        graph = g.chance(0.2)
+        s0 = [g.r.uniform(-0.5, 0.5) for _ in range(n_)]
+        if fam == "american_binary":
+            s0 = [-abs(x) - 0.02 for x in s0]
+            m0 = [min(-0.01, x + g.r.uniform(0, 0.3)) for x in s0]
+        else:
+            m0 = [x + g.r.uniform(0, 0.4) for x in s0]
+            m0 = [x + 0.05 if abs(x) < 0.02 else x for x in m0]       # away from the branch kink max = strike
+        t0 = [g.r.uniform(0.02, 2.0) for _ in range(n_)]
+        v0 = [g.r.uniform(0.05, 0.9) for _ in range(n_)]
+        s_, t_, v_ = (as_caller_tensor(torch, x, graph) for x in (s0, t0, v0))
+        m_ = as_caller_tensor(torch, m0, False)
+        Ks = [g.choice(DYADIC_STRIKES), g.choice(DYADIC_STRIKES)]
+        if pd:
+            mods = [{"lookback": BSLookbackOption, "american_binary": BSAmericanBinaryOption}[fam](strike=k_) for k_ in Ks]
+            desc = [f"{fam}(strike={k_})" for k_ in Ks]
+        else:
+            Ks[1] = Ks[0]                                               # call and put of one strike on one grid
+            first_call = g.chance(0.5)
+            cls_ = {"european": BSEuropeanOption, "european_binary": BSEuropeanBinaryOption}[fam]
+            mods = [cls_(call=first_call, strike=Ks[0]), cls_(call=not first_call, strike=Ks[0])]
+            desc = [f"{fam}(call={c_}, strike={Ks[0]})" for c_ in (first_call, not first_call)]
+        refs = []
+        for mod, k_ in zip(mods, Ks):
+            if pd:
+                pr = lambda S, t, v, mod=mod, k_=k_: mod.price((S / k_).log(), m_.detach(), t, v)
+            else:
+                pr = lambda S, t, v, mod=mod, k_=k_: mod.price((S / k_).log(), t, v)
+            refs.append(harness_greeks(torch, pr, (s_.exp() * k_).detach(), t_, v_))
+        seq = session_greeks(g)
+        which = [g.randint(0, 1) for _ in seq]
+        routes = []
+        for i, (greek, w_) in enumerate(zip(seq, which)):
+            mod, k_ = mods[w_], Ks[w_]
+            cands = ["autogreek"]
+            if fam == "lookback":
+                cands += ["module", "module", "functional", "functional"]
+            elif fam == "american_binary" and greek != "delta":
+                cands += ["module", "module"]
+            route = g.choice(cands)
+            routes.append(route)
+            strike_form = "float"
+            if route == "module":
+                site = f"module:{fam}"
+                st, val, _ = call_impl(getattr(mod, greek), s_, m_, t_, v_)
+            elif route == "functional":
+                site = "bs_lookback"
+                kk = k_
+                if g.chance(0.5):
+                    kk, strike_form = torch.tensor(k_, dtype=torch.float64), "float64-tensor"
+                st, val, _ = call_impl(getattr(fnl, "bs_lookback_" + greek), s_, m_, t_, v_, kk)
+            else:
+                site = f"autogreek[{fam}.price]"
+                params = {"log_moneyness": s_, "time_to_maturity": t_, "volatility": v_, "strike": k_}
+                if pd:
+                    params["max_log_moneyness"] = m_
+                st, val, _ = call_impl(getattr(ag, greek), mod.price, **params)
+            case = {"session": "module", "s": s0, "m": m0 if pd else None, "t": t0, "v": v0, "strike_given_as": strike_form,
+                    "inputs_tracked_by_autograd": graph,
+                    "sequence": [f"{r_}:{desc[b]}.{a}" for a, b, r_ in zip(seq[:i + 1], which, routes)]}
+            ctx.case(case, True, tag="session_module")
+            ctx.stats[f"session_module={route}:{fam}.{greek}/{'first' if i == 0 else 'later'}"] += 1
+            ctx.traces += 1
+            if st != "ok":
+                ctx.fail("automatic Greek of a module price raised (session on shared tensors)", case, key=f"{site}.{greek}:session:error", detail=val)
+                continue
+            floor = 0.05 * {"delta": 1.0, "gamma": 1.0 / k_, "vega": k_ if fam in ("lookback", "european") else 1.0,
+                            "theta": k_ if fam in ("lookback", "european") else 1.0}[greek]
+            judge(site, greek, i, val, refs[w_][greek], floor, case, strike_form)
+    # ---------------- single evaluations, float64 tensors, the strike a Python float that float32 cannot hold exactly
+    for _ in range(40 if ctx.tier == "quick" else 400):
+        Kf = g.r.uniform(0.4, 2.5)
+        if float(torch.tensor(Kf, dtype=torch.float32)) == Kf:
+            continue
+        route = g.choice(["module:lookback", "bs_lookback", "module:american_binary", "autogreek[european.price]", "autogreek[user]"])
+        greek = g.choice(["delta", "gamma"]) if route != "module:american_binary" else "gamma"
+        if route == "bs_lookback" and g.chance(0.4):
+            greek = g.choice(["vega", "theta"])        # computed from the gamma
+        s0, t0, v0 = g.r.uniform(-0.5, 0.5), g.r.uniform(0.02, 2.0), g.r.uniform(0.05, 0.9)
+        if route == "module:american_binary":
+            s0 = -abs(s0) - 0.02
+            m0 = min(-0.01, s0 + g.r.uniform(0, 0.3))
+        else:
+            m0 = s0 + g.r.uniform(0.01, 0.4)
+            m0 = m0 + 0.05 if abs(m0) < 0.02 else m0
+        s_, m_, t_, v_ = (torch.tensor([x], dtype=torch.float64) for x in (s0, m0, t0, v0))
+        case = {"single": route, "greek": greek, "s": s0, "m": m0, "t": t0, "v": v0, "K": Kf, "strike_given_as": "python float (not a float32 value)"}
+        floor = 0.05 * {"delta": 1.0, "gamma": 1.0 / Kf, "vega": Kf, "theta": Kf}[greek]
+        if route == "autogreek[user]":
+            spotpar, with_strike = g.choice(["moneyness", "log_moneyness"]), g.chance(0.5)
+            core, form = make_pricer(g, torch, spotpar, "volatility")
+            pricer = named_pricer(torch, core, spotpar, "volatility", with_strike)
+            t_ = torch.tensor([g.r.uniform(0.2, 2.0)], dtype=torch.float64)
+            v_ = torch.tensor([g.r.uniform(0.1, 0.8)], dtype=torch.float64)
+            X = s_ if spotpar == "log_moneyness" else s_.exp()
+            case.update({"spot_param": spotpar, "pricer_has_strike": with_strike, "form": form, "t": float(t_), "v": float(v_)})
+            x_of = (lambda S: S) if with_strike else (lambda S: S / Kf)
+            ref = harness_greeks(torch, lambda S, t, v: core(x_of(S), v, t, torch), s_.exp() * Kf, t_, v_)
+            st, val, _ = call_impl(getattr(ag, greek), pricer, **{spotpar: X, "strike": Kf, "volatility": v_, "time_to_maturity": t_})
+            floor = 1.0
+        elif route == "autogreek[european.price]":
+            mod = BSEuropeanOption(call=g.chance(0.5), strike=Kf)
+            ref = harness_greeks(torch, lambda S, t, v: mod.price((S / Kf).log(), t, v), s_.exp() * Kf, t_, v_)
+            st, val, _ = call_impl(getattr(ag, greek), mod.price, log_moneyness=s_, time_to_maturity=t_, volatility=v_, strike=Kf)
+        else:
+            mod = (BSAmericanBinaryOption if route == "module:american_binary" else BSLookbackOption)(strike=Kf)
+            ref = harness_greeks(torch, lambda S, t, v: mod.price((S / Kf).log(), m_, t, v), s_.exp() * Kf, t_, v_)
+            if route == "bs_lookback":
+                st, val, _ = call_impl(getattr(fnl, "bs_lookback_" + greek), s_, m_, t_, v_, Kf)
+            else:
+                st, val, _ = call_impl(getattr(mod, greek), s_, m_, t_, v_)
+                if route == "module:american_binary":
+                    floor = 0.05 / Kf ** 2
+        ctx.case(case, True, tag="float_strike_float64_greek")
+        ctx.stats[f"float_strike={route}.{greek}"] += 1
+        ctx.traces += 1
+        if st != "ok":
+            ctx.fail("automatic Greek raised (float64 tensors, Python float strike)", case, key=f"{route}.{greek}:float-strike:error", detail=val)
+            continue
+        judge(route, greek, 0, val, ref[greek], floor, case, "python-float")
     return ctx.finish(
         rule="closed-form Greeks of the three families over the whole box (t != 1 and K != 1 almost always; American binary mostly in the "
              "continuation region), module Greeks incl. autogreek-based lookback, autogreek on generated pricers x {spot, moneyness, log_moneyness} x "
-             "{volatility, variance}; non-trivial = t != 1 or K != 1 (closed forms), all others; distinct = sha1 of canonical case")
+             "{volatility, variance}; sessions of 3-6 automatic Greeks on the same float64 caller tensors (user pricers, module prices: module / "
+             "autogreek / functional routes; plain and autograd-tracked inputs; float and float64-tensor strikes) vs the harness's own double-precision "
+             "derivative; the same single evaluations with Python float strikes that are not float32 values; non-trivial = t != 1 or K != 1 (closed forms), all others; distinct = sha1 of canonical case")
